@@ -12,7 +12,8 @@ from ..interp import (Interp, Obj, PyFunc, Raised, Unsupported)
 from ..model import AnalysisError, Model, src, walk_no_nested
 from ..poly import Poly
 from ..refcell import (Child, ChildList, ConnTable, EntTable, IdxArr, Mask,
-                       MASKS, NT, SZ, PStub, PointTable, Recorder, RowSel,
+                       ARange, MASKS, NT, SZ, PStub, PointTable, Recorder,
+                       RowSel,
                        inside_ref, make_hook, resolve, simplex_volume)
 from .c12 import tag_rule
 
@@ -190,26 +191,6 @@ def _run_split(model, rd):
     except Unsupported as e:
         raise AnalysisError(f"_adaptive_split_elements outside grammar: {e}")
     return fn, ret, cap, env, pre_src
-
-
-class ARange:
-    skv_isarray = True
-
-    def __init__(self, lo, hi):
-        self.lo, self.hi = lo, hi
-
-    def skv_getattr(self, name):
-        if name == "reshape":
-            def rs(a, k, n):
-                rows = a[0] if not isinstance(a[0], tuple) else a[0][0]
-                return ("block", self.lo, self.hi, int(rows))
-            return PyFunc(rs)
-        raise Unsupported("arange." + name)
-
-    def skv_binop(self, op, other, reflected):
-        if isinstance(op, ast.Add):
-            return ARange(self.lo + other, self.hi + other)
-        raise Unsupported("arithmetic on arange")
 
 
 def _templates(model, rep):
